@@ -16,7 +16,10 @@ PROP = {
                    "array of a LimP4 / Open2N2 bucket keeps, over every add/remove history, the byte of the element that is at each position now. "
                    "The executable model is compared with the real bucket classes on every run (all L, all in-range displacements, all L', "
                    "hashCount 4/6/8 - 6 and 8 through builds with the global macro MOMO_MEM_MANAGER_PTR_USEFUL_BIT_COUNT = 48 / 32, not through per-manager constants, which momo ignores: observation O3) and with real HashSets of slow-hash keys (hash evaluations counted during every relocation, twin set that "
-                   "recomputes every hash must have the identical layout); layout constants are re-extracted from the headers. pvCalcShortHash, pvGetProbeShift, pvSetHashProbe, pvGetCount, IsFull, GetHashCodePart and the byte compaction of Remove of BucketLimP4, pvCalcShortHash, pvGetProbeShift, pvGetCount, IsFull, the metadata part of AddCrt / Remove and GetHashCodePart of BucketOpen2N2, pvGetHashState (4 widths) and GetHashCodePart of BucketOne are additionally TRANSLATED from the header text on every run (tools/translate.py, tools/trspecs/HashMeta.py; index functions: tools/trspecs/HashProbe.py) and proved equal to the model functions (Proof/TrEqHashMeta.lean); reconstruction, bits-suffice, chain and still-found theorems are proved for the generated definitions themselves (C12_*_translated)."),
+                   "recomputes every hash must have the identical layout); layout constants are re-extracted from the headers. pvCalcShortHash, pvGetProbeShift, pvSetHashProbe, pvGetCount, IsFull, GetHashCodePart and the byte compaction of Remove of BucketLimP4, pvCalcShortHash, pvGetProbeShift, pvGetCount, IsFull, the metadata part of AddCrt / Remove and GetHashCodePart of BucketOpen2N2, pvGetHashState (4 widths) and GetHashCodePart of BucketOne are additionally TRANSLATED from the header text on every run (tools/translate.py, tools/trspecs/HashMeta.py; index functions: tools/trspecs/HashProbe.py) and proved equal to the model functions (Proof/TrEqHashMeta.lean); reconstruction, bits-suffice, chain and still-found theorems are proved for the generated definitions themselves (C12_*_translated)."
+                   " Second wave (tools/trspecs/Wave2Meta.py, Proof/TrEqWave2Bucket.lean): the metadata writes of all five paths of BucketLimP4::AddCrt (null bucket + pvAdd0, "
+                   "case 1 / case 2 / default of the switch + pvAdd<k>, the in-place block), one checked fragment per case composed from the translated pvSetHashProbe / "
+                   "pvCalcShortHash, are proved equal to the model step P4.Bucket.addCrt (C12_limp4_addCrt_translated)."),
     "level_note": ("Trusted: Lean kernel, the three standard axioms, extractor, correspondence harness (g++, -fno-access-control). Modelled not "
                    "verified: the C++ byte layout of mShortHashes/mHashData/mHashState and the pointer-state bits; that HashSet::pvRelocateItems "
                    "passes (bucket index, old log, new log) as modelled and that growth is strict (MOMO_CHECK(shift > 0)) is read off the source "
@@ -43,6 +46,7 @@ PROP = {
         "Momo.HashMeta.C12_chain_translated",
         "Momo.HashMeta.C12_still_found_translated",
         "Momo.HashMeta.C12_limp4_meta_translated",
+        "Momo.HashMeta.C12_limp4_addCrt_translated",
     ],
     "harnesses": [
         {"name": "c12_hashmeta", "src": "c12_hashmeta.cpp"},
